@@ -380,6 +380,36 @@ def Points.joined (ps : List (Points α)) : Except Err (Points α) :=
        | none => throw .value                 -- `torch.cat([])`
        | some r => pure r
 
+/-- the fold of `join` over the non-empty arguments, left to right -/
+def joinFold : List (Points α) → Option (Points α) → Except Err (Option (Points α))
+  | [], acc => pure acc
+  | p :: rest, acc =>
+    if p.isempty then joinFold rest acc
+    else match acc with
+      | none => joinFold rest (some p)
+      | some a => do let j ← a.join p; joinFold rest (some j)
+
+/-- the natural total extension of `Points.joined`: empty arguments are the neutral element of the
+    join at every position, no argument at all gives `Points.empty()`.  It agrees with the coded
+    `joined` wherever that is defined (`joined_total_of_joined`); where the coded version raises for an
+    incidental reason (empty first argument, only empty arguments) this is the only table the
+    property allows.  Overlapping names and different batch shapes are rejected by both. -/
+def Points.joinedTotal (ps : List (Points α)) : Except Err (Points α) := do
+  match (← joinFold ps none) with
+  | none => pure Points.empty
+  | some r => pure r
+
+/-- index expressions that the code rejects for an incidental reason, and the reading under which
+    the property determines the result: a Python list of integers is a list of rows, a trailing
+    Ellipsis is not a column key, a bare name (or tuple of names) selects these variables of all rows -/
+def altIndex (nd : Nat) : Index → Option Index
+  | .pylist is => if is = [] then none else some (.one (.list is))
+  | .one (.name v) => some (.tup [.ell, .name v])
+  | .one (.names ns) => some (.tup [.ell, .names ns])
+  | .tup its =>
+    if its.length = nd ∧ its.getLast? = some .ell then some (.tup (its ++ [fullSlice])) else none
+  | _ => none
+
 /-- `torch.Tensor.repeat` on the full shape (`shape` ++ column axis) with one repeat per axis -/
 def Points.repeatCore (p : Points α) (shape reps : List Nat) : Except Err (Points α) :=
   match reps.reverse with
